@@ -459,5 +459,37 @@ def run(chk):
     facts = sr.guards(n)
     if not any((not val) and dotted(e) == 'state' for e, val in facts):
       ok = False
+  # whether an occurrence of the separator splits may depend on its neighbours
+  # only through the `||` exception: the neighbouring character is compared
+  # with the constant '|', never with something derived from the separator
+  # (a run of the separator itself - `;;`, two blanks - is layout and splits)
+  seps = set(sr.fi.params[1:2])
+  grew_ = True
+  while grew_:
+    grew_ = False
+    for x in walk_local(sr.fi.node):
+      if isinstance(x, ast.Assign) and isinstance(x.targets[0], ast.Name) and \
+          x.targets[0].id not in seps and any(
+              isinstance(n_, ast.Name) and n_.id in seps for n_ in ast.walk(x.value)) and \
+          not (isinstance(x.value, ast.Call) and call_tail(x.value) in ('len', 'isalnum')):
+        seps.add(x.targets[0].id)
+        grew_ = True
+  neigh_bad = []
+  for x in walk_local(sr.fi.node):
+    if isinstance(x, ast.Compare) and len(x.ops) == 1 and isinstance(x.ops[0], (ast.Eq, ast.NotEq)):
+      sides = [x.left, x.comparators[0]]
+      sub = [e for e in sides if isinstance(e, ast.Subscript) and not isinstance(e.slice, ast.Slice)
+             and dotted(e.value) == sr.fi.params[0]]
+      if sub:
+        other = [e for e in sides if e is not sub[0]][0]
+        if any(isinstance(n_, ast.Name) and n_.id in seps for n_ in ast.walk(other)):
+          neigh_bad.append(x)
+  chk.ob('C15-R3', not neigh_bad, None,
+         "a neighbouring character stops a split only when it is the constant '|'",
+         'SplitRaw compares the character next to a separator with a value derived '
+         'from the separator (`%s`): a run of the separator itself (`;;`, two spaces '
+         'before an operator) no longer splits, so layout changes what is parsed'
+         % (norm(neigh_bad[0], 60) if neigh_bad else ''), fi=sr.fi,
+         node=neigh_bad[0] if neigh_bad else None)
   chk.ob('C15-R3', ok, None, 'SplitRaw splits only at depth 0 outside strings (`not state`)',
          'separators inside brackets or string literals split the text', fi=sr.fi)
